@@ -63,26 +63,33 @@ theorem main_unpad_private (x : Bytes) (h16 : 16 ≤ x.length) :
   rw [this]; congr 1
   simp only [List.length_take]; omega
 
+theorem padded_isBytes (pt : Bytes) (h : IsBytes pt) : IsBytes (padded pt) := by
+  have hpr := padLen_range pt.length
+  refine isBytes_append.mpr ⟨h, ?_⟩
+  intro y hy
+  have := List.eq_of_mem_replicate hy
+  omega
+
 theorem main_cbc_roundtrip (C : Cipher) (key iv pt dst : Bytes) (lay : DecLayout)
-    (hE : ∀ k x, x.length = 16 → (C.E k x).length = 16)
-    (hDE : ∀ k x, x.length = 16 → C.D k (C.E k x) = x)
-    (hk : keyOK key = true) (hiv : iv.length = 16)
+    (hE : ∀ x, x.length = 16 → IsBytes x → (C.E key x).length = 16 ∧ IsBytes (C.E key x))
+    (hDE : ∀ x, x.length = 16 → IsBytes x → C.D key (C.E key x) = x)
+    (hk : keyOK key = true) (hiv : iv.length = 16) (hivb : IsBytes iv) (hptb : IsBytes pt)
     (hdst : dst.length = cbcEncryptLen pt.length)
     (hlay : ∀ d, lay = .fresh d → d.length = cbcEncryptLen pt.length) :
     ∃ ct, aesCBCEncrypt C dst pt key iv = .ok ct ∧
       ct = cbcEncrypt (C.E key) iv (pt ++ List.replicate (16 - pt.length % 16) (16 - pt.length % 16)) ∧
-      ct.length = cbcEncryptLen pt.length ∧
+      ct.length = cbcEncryptLen pt.length ∧ IsBytes ct ∧
       ∃ d, aesCBCDecrypt C lay ct key iv = .ok ((pt.length : Int), d) ∧ d.take pt.length = pt := by
-  refine ⟨_, aesCBCEncrypt_spec C dst pt key iv hk hiv hdst, rfl, ?_, ?_⟩
-  · have := cbcEncrypt_length (C.E key) (hE key) _ iv (padded pt) hiv (padded_blocks pt)
-    rw [padded_length] at this; exact this
-  · have hl := cbcEncrypt_length (C.E key) (hE key) _ iv (padded pt) hiv (padded_blocks pt)
-    have hl' : (cbcEncrypt (C.E key) iv (padded pt)).length = 16 * (pt.length / 16 + 1) := by
+  have hpb := padded_isBytes pt hptb
+  obtain ⟨hl, hlb⟩ := cbcEncrypt_lengthB (C.E key) hE _ iv (padded pt) hiv hivb (padded_blocks pt) hpb
+  refine ⟨_, aesCBCEncrypt_spec C dst pt key iv hk hiv hdst, rfl, ?_, hlb, ?_⟩
+  · rw [padded_length] at hl; exact hl
+  · have hl' : (cbcEncrypt (C.E key) iv (padded pt)).length = 16 * (pt.length / 16 + 1) := by
       rw [hl, padded_blocks]
     change ∃ d, aesCBCDecrypt C lay (cbcEncrypt (C.E key) iv (padded pt)) key iv = _ ∧ _
     rw [aesCBCDecrypt_eq C lay _ key iv hk hiv (by omega) (by omega)
       (by intro d hd; rw [hlay d hd, hl, padded_length])]
-    rw [cbc_roundtrip (C.E key) (C.D key) (hE key) (hDE key) _ iv (padded pt) hiv (padded_blocks pt)]
+    rw [cbc_roundtripB (C.E key) (C.D key) hE hDE _ iv (padded pt) hiv hivb (padded_blocks pt) hpb]
     have hpr := padLen_range pt.length
     have := (unpadPriv_spec (padded pt) (by rw [padded_blocks]; omega)).2.2 pt (padLen pt.length)
       hpr.1 hpr.2 rfl
@@ -137,7 +144,7 @@ theorem main_cbc_decrypt_rejects (C : Cipher) (lay : DecLayout) (ct key iv : Byt
         rw [this, hlen]
 
 theorem main_gcm_lens (A : AEAD) (dst pt key nonce ad : Bytes)
-    (hseal : ∀ k n p a, (A.sealF k n p a).length = p.length + 16)
+    (hseal : ∀ n p a, (A.sealF key n p a).length = p.length + 16)
     (hk : keyOK key = true) (hn : nonce ≠ [])
     (hdst : dst.length = gcmEncryptLen pt.length) :
     gcmEncryptLen pt.length = pt.length + 16 ∧
@@ -150,8 +157,8 @@ theorem main_gcm_lens (A : AEAD) (dst pt key nonce ad : Bytes)
   rw [if_neg hk', if_neg hn', appendInto_exact _ _ (by rw [hdst, hseal]; rfl)]
 
 theorem main_gcm_roundtrip (A : AEAD) (dst dst' pt key nonce ad : Bytes)
-    (hseal : ∀ k n p a, (A.sealF k n p a).length = p.length + 16)
-    (hopen : ∀ k n p a, A.openF k n (A.sealF k n p a) a = some p)
+    (hseal : ∀ n p a, (A.sealF key n p a).length = p.length + 16)
+    (hopen : ∀ n p a, A.openF key n (A.sealF key n p a) a = some p)
     (hk : keyOK key = true) (hn : nonce ≠ [])
     (hdst : dst.length = gcmEncryptLen pt.length)
     (hdst' : (dst'.length : Int) = gcmDecryptLen (gcmEncryptLen pt.length)) :
